@@ -13,6 +13,14 @@ RE_REJ = re.compile(r'<<"REJECT", (\d+), (\d+), "(\w+)">>')
 def verdicts(out):
     return [int(x) for x in RE_ACC.findall(out)], [(int(a), int(b), c) for a, b, c in RE_REJ.findall(out)]
 
+RE_CL = re.compile(r'<<"CLAUSES", (\d+), (\d+), <<(.*?)>>>>')
+def clauses(out):
+    """(trace id, step) -> names of all the clauses on which that step differs"""
+    d = {}
+    for a, b, c in RE_CL.findall(out):
+        d[(int(a), int(b))] = re.findall(r'"(\w+)"', c)
+    return d
+
 RE_EXP = re.compile(r'<<"EXPECTED", (\d+), "(.*)">>')
 def expected(out):
     import json
